@@ -71,4 +71,19 @@ def Config.val (c : Config) (k : String) : Option String := (c.find? (·.1 == k)
 /-- the part of a configuration a set of option names sees -/
 def proj (ks : List String) (c : Config) : List (Option String) := ks.map c.val
 
+/-! ## how the template source enters the key: `body.encode('utf-8', errors)` -/
+
+/-- UTF-8 of one code point; surrogates are encoded like any other code point (`surrogatepass`) -/
+def utf8 (c : Nat) : List Nat :=
+  if c < 0x80 then [c]
+  else if c < 0x800 then [0xC0 + c / 64, 0x80 + c % 64]
+  else if c < 0x10000 then [0xE0 + c / 4096, 0x80 + (c / 64) % 64, 0x80 + c % 64]
+  else [0xF0 + c / 262144, 0x80 + (c / 4096) % 64, 0x80 + (c / 64) % 64, 0x80 + c % 64]
+
+def isSurrogate (c : Nat) : Bool := 0xD800 ≤ c && c < 0xE000
+
+/-- the bytes hashed for a source given as code points, for the `errors` modes `surrogatepass` and `ignore` -/
+def encodeBody (errors : String) (s : List Nat) : List Nat :=
+  s.flatMap (fun c => if errors == "ignore" && isSurrogate c then [] else utf8 c)
+
 end ChamVerif.Sys.Cache
